@@ -1,6 +1,6 @@
 //! C09: compress_graph with censoring; C18: NodeKmerIter; C20: GFA / JSON exports and serde round trips.
 use crate::c01::{parse_spec, show_graph, show_table, table_from_reads, Spec};
-use crate::c03::{all_edges, build_graph, nodes_with_ids, pipeline};
+use crate::c03::{all_edges, build_graph, dangle_nodes, nodes_with_ids, pipeline};
 use crate::c10::Raw;
 use crate::gr::*;
 use crate::util::*;
@@ -314,7 +314,7 @@ pub fn gen20(rng: &mut Rng, tier: &str) -> String {
                     let reads = gen_reads(rng, k, 5, 50);
                     let nodes = with_graph_kmer!(k, pipe_nodes, &reads, stranded);
                     let picks: Vec<usize> = (0..6).map(|_| rng.below(1 << 20)).collect();
-                    with_graph_kmer!(k, dangle_nodes, &nodes, stranded, &picks)
+                    with_graph_kmer!(k, dangle_nodes, &nodes, stranded, &picks, true)
                 }
                 _ => { let reads = gen_reads(rng, k, 5, 50); with_graph_kmer!(k, pipe_nodes, &reads, stranded) }
             };
@@ -337,28 +337,6 @@ pub fn gen20(rng: &mut Rng, tier: &str) -> String {
             format!("C20 export {} {} {} {}", k, stranded as u8, nodes, rest)
         }
     }
-}
-
-/// node text of the graph with up to three dangling extension bits added (the extended terminal k-mer is no node end,
-/// so no resolvable edge appears or disappears) and, every other time, one node removed (links to it dangle)
-fn dangle_nodes<K: Kmer + Send + Sync>(nodes: &str, stranded: bool, picks: &[usize]) -> String {
-    if nodes == "-" { return nodes.to_string(); }
-    let mut items: Vec<(String, u8, String)> = nodes.split(',').map(|t| { let f: Vec<&str> = t.split(':').collect(); (f[0].to_string(), u8::from_str_radix(f[1], 16).unwrap(), f[2].to_string()) }).collect();
-    if picks[0] % 2 == 0 && items.len() > 1 { items.remove(picks[1] % items.len()); }
-    let txt = |it: &Vec<(String, u8, String)>| it.iter().map(|x| format!("{}:{:02x}:{}", x.0, x.1, x.2)).collect::<Vec<_>>().join(",");
-    let g: DebruijnGraph<K, u32> = build_graph(stranded, &txt(&items));
-    for j in 0..3 {
-        let i = picks[2 + j] % items.len();
-        let dir = if (picks[2 + j] >> 8) % 2 == 0 { Dir::Left } else { Dir::Right };
-        let b = ((picks[2 + j] >> 10) % 4) as u8;
-        let node = g.get_node(i);
-        if node.exts().has_ext(dir, b) { continue; }
-        let term: K = node.sequence().term_kmer(dir);
-        if g.find_link(term.extend(b, dir), dir).is_none() {
-            items[i].1 = Exts::new(items[i].1).set(dir, b).val;
-        }
-    }
-    txt(&items)
 }
 
 fn pipe_nodes<K: Kmer + Send + Sync>(reads: &[Vec<u8>], stranded: bool) -> String {
